@@ -112,6 +112,8 @@ GP.build("C04", "An episode ends exactly when it should, for the right reason, a
           ("C04_absorbing_frame", "respond_frame", "... and changes no counter, view, status, world or trajectory"),
           ("C04_defender_reason", "reward_agent_bonus", "a defender's reason becomes Success exactly when no attacker succeeded"),
           ("C04_stays_ended", "ended_stays_reachable", "ACROSS LABELS: from any reachable state in which an agent's episode has ended, along every continuation without a run of the reset task (any interleaving, other agents acting, joining, leaving), the agent - while it is in the game - stays ended and its step counter and view do not move"),
+          ("C04_limit", "step_limit_reachable", "the step limit, in EVERY reachable state: an agent whose role has a limit m > 0 has taken at most m steps in its episode, and one that has taken m has ended (the m-th action ends the episode at the latest, whatever the interleaving)"),
+          ("C04_origin", "agent_origin", "where the records of the next state come from: from the record of the same address by one of the listed changes, or - for an address that had none - as the fresh record of a successful join"),
           ("C04_one_label", "agent_step_reachable", "what one label can do to one agent's record, from every reachable state: the complete case list `achange` (Proofs/CoordAgentStep.v): nothing; request flag set; own action (only when not ended); answer recorded; trajectory restarted; reward task; reset task (only when it had asked)")],
          example=(EX % "C04") + (EX2 % "C04"))
 
